@@ -469,6 +469,19 @@ func (e *Enc) contractCall(x *ssa.Call, callee *ssa.Function, ct *Contract, cc *
 			vars[nm] = SV{t: c, sort: e.g().SortOf(rt), gt: rt}
 		}
 	}
+	if ct.Functional && len(res) == 1 {
+		// deterministic function of its arguments: the result is F(args)
+		var as, sorts []string
+		for i := range callee.Params {
+			if i < len(cc.args) {
+				as = append(as, e.val(cc.args[i]))
+				sorts = append(sorts, e.g().SortOf(callee.Params[i].Type()))
+			}
+		}
+		fname := functionalName(ct)
+		e.g().DeclFun(fname, sorts, e.g().SortOf(sig.Results().At(0).Type()))
+		r.assume(fmt.Sprintf("(=> %s (= %s (%s %s)))", reach, res[0], fname, strings.Join(as, " ")))
+	}
 	post := &SpecEnv{e: e, vars: vars, cur: nil, old: pre, errCtx: "call " + ct.Key + " ensures", noLocals: true}
 	for _, en := range ct.Ensures {
 		t := post.boolExpr(en.E)
@@ -606,3 +619,5 @@ func (e *Enc) setStateRaw(name, term string) {
 	e.r.writeLog[name][e.r.curBlock] = true
 	e.st[name] = term
 }
+
+func functionalName(ct *Contract) string { return "fn_" + mangle(pkgShort(ct.Pkg)+"_"+ct.shortName()) }
